@@ -140,14 +140,11 @@ func (i *InvalidationIndex) invalidateByLabels(ctx context.Context, labeledKeys 
 
 			for label, keys := range cutKeys {
 				// Cut keys already deleted in other labels.
-				for j, k := range keys {
-					if deleted[k] {
-						keys[j] = keys[len(keys)-1]
-						keys = keys[:len(keys)-1]
+				for _, k := range keys {
+					if !deleted[k] {
+						labeledKeys[label] = append(labeledKeys[label], k)
 					}
 				}
-
-				labeledKeys[label] = append(labeledKeys[label], keys...)
 			}
 		}
 	}()
